@@ -315,6 +315,135 @@ def work_blocked(shard):
 
 
 # ---------------------------------------------------------------------------------------
+# suspension around STOP / CONT: the program stops itself, the user types CONT
+
+STOP_PROGRAMS = {
+    'then-stop': [b'10 OPEN "OUT.TXT" FOR OUTPUT AS 1', b'20 FOR I%=1 TO 4', b'30 N%=N%+I%:PRINT#1,"item";I%',
+                  b'40 IF I%=2 THEN STOP', b'50 GOSUB 100', b'60 NEXT', b'70 PRINT#1,"done";N%;M%:CLOSE:SYSTEM',
+                  b'100 M%=M%+1:RETURN'],
+    'stop-statement': [b'10 OPEN "OUT.TXT" FOR OUTPUT AS 1:A%=1', b'20 STOP', b'30 A%=A%+1:PRINT#1,"after";A%', b'40 STOP:A%=A%+10',
+                       b'50 PRINT#1,"end";A%:CLOSE:SYSTEM'],
+    'stop-in-handler': [b'10 OPEN "OUT.TXT" FOR OUTPUT AS 1:ON ERROR GOTO 100', b'20 ERROR 5', b'30 PRINT#1,"resumed";E%:CLOSE:SYSTEM',
+                        b'100 E%=ERR', b'110 STOP', b'120 RESUME NEXT'],
+}
+CONT_KEYS = [H.key_event(c) for c in u'CONT\r']
+
+
+def _stop_final(s, mount):
+    vs = {v: s.get_variable(v) for v in ('A%', 'N%', 'M%', 'I%', 'E%')}
+    s.close()
+    files = {}
+    for fn in sorted(os.listdir(mount)):
+        with open(os.path.join(mount, fn), 'rb') as f:
+            files[fn] = f.read()
+    return {'vars': vs, 'files': files}
+
+
+def _stop_reference(lines, base):
+    """RUN, CONT after every Break, until SYSTEM.  -> (final state, [polls of each command])"""
+    mount = os.path.join(base, 'ref')
+    os.makedirs(mount)
+    s = _mk(mount, lines)
+    polls = []
+    cmd = b'RUN'
+    for _ in range(6):
+        r = H.run(s, cmd, reset_polls=True)
+        if r.exc is not None:
+            raise r.exc
+        polls.append(s.verif_inputs.polls)
+        if r.exit:
+            st = _stop_final(s, mount)
+            shutil.rmtree(mount)
+            return st, polls
+        if b'Break' not in r.out:
+            raise CheckError('reference stopped without Break: %r' % (r,))
+        cmd = b'CONT'
+    raise CheckError('reference did not reach SYSTEM')
+
+
+def _stop_crash(lines, base, phase, k):
+    """CONT through the first `phase` Breaks, QUIT at poll k of the next command, suspend, resume; the keys CONT<Enter> are
+    typed as often as there are Breaks left."""
+    mount = os.path.join(base, 'm%d_%d' % (phase, k))
+    os.makedirs(mount)
+    try:
+        s = _mk(mount, lines)
+        cmd = b'RUN'
+        for _ in range(phase):
+            r = H.run(s, cmd, reset_polls=True)
+            if r.exc is not None or r.exit:
+                raise CheckError('phase %d not reached: %r' % (phase, r))
+            cmd = b'CONT'
+        s.verif_inputs.schedule = {k: [signals.Event(signals.QUIT)]}
+        r = H.run(s, cmd, reset_polls=True)
+        if r.exc is not None:
+            return None, ('host-exception-before-suspend', repr(r.exc))
+        if not r.exit:
+            raise CheckError('QUIT at poll %d did not stop the session: %r' % (k, r))
+        statefile = os.path.join(base, 'state%d_%d' % (phase, k))
+        s.suspend(statefile)
+        s.close()
+        s2 = H.Session.resume(statefile)
+        os.unlink(statefile)
+        s2.start()
+        # the user types CONT whenever the program has stopped (keys wait in the buffer until the prompt reads them)
+        sched = {40 + 60 * i: list(CONT_KEYS) for i in range(4)}
+        s2._impl.queues.inputs = H.ScriptedInputs(sched, 3000, 'raise')
+        out = io.BytesIO()
+        s2.add_pipes(output_streams=out)
+        ended = 'exit'
+        try:
+            s2.interact()
+        except H.Horizon:
+            ended = 'horizon'
+        except BaseException as e:
+            from pcbasic.basic.base import error
+            if isinstance(e, error.Exit):
+                ended = 'exit'
+            elif isinstance(e, Exception) and from_pcbasic(e):
+                return None, ('host-exception-after-resume', repr(e))
+            else:
+                raise
+        st = _stop_final(s2, mount)
+        st['ended'] = ended
+        # how often the program stopped (with Break in ...) after the resume
+        st['breaks'] = out.getvalue().count(b'Break in')
+        return st, None
+    finally:
+        shutil.rmtree(mount, ignore_errors=True)
+
+
+def work_stopcont(shard):
+    part = Partial()
+    for name in shard:
+        lines = STOP_PROGRAMS[name]
+        with H.Scratch() as base:
+            ref, polls = _stop_reference(lines, base)
+            for phase, np_ in enumerate(polls):
+                for k in range(1, np_):
+                    st, problem = _stop_crash(lines, base, phase, k)
+                    part.n += 1
+                    part.traces += 1
+                    case = {'stop_program': name, 'phase': phase, 'boundary': k}
+                    if problem:
+                        part.violation('resume-stop/%s' % problem[0], '%s phase %d boundary %d: %s' % (name, phase, k, problem[1]), case)
+                        continue
+                    diffs = [f for f in ('vars', 'files') if st[f] != ref[f]]
+                    if st['ended'] != 'exit':
+                        diffs.append('did-not-end')
+                    if st['breaks'] != len(polls) - 1 - phase:
+                        diffs.append('stopped-%d-times-instead-of-%d' % (st['breaks'], len(polls) - 1 - phase))
+                    part.classes.add('stop-cont/%s/phase%d/%s' % (name, phase, 'ok' if not diffs else 'diff'))
+                    if diffs:
+                        part.violation('resume-stop/diverges/%s' % name,
+                                       'program %s suspended at boundary %d after %d CONTs, resumed, CONT typed at every Break: differs in %s; '
+                                       'files %r expected %r; variables %r expected %r' % (
+                                           name, k, phase, diffs, st['files'], ref['files'], st['vars'], ref['vars']), case)
+    part.sample({'stop_program': shard[0]})
+    return part
+
+
+# ---------------------------------------------------------------------------------------
 # byte alteration
 
 def _make_state_files(base):
@@ -398,6 +527,10 @@ def legs(ctx):
     out.append(Leg('blocked-input', [[n] for n in sorted(BLOCKED_PROGRAMS)], work_blocked, exhaustive=True,
                    bound='%d programs suspended while INPUT / LINE INPUT waits (first statement of the '
                          'program, after a colon, on a later line); keys supplied after the resume' % len(BLOCKED_PROGRAMS)))
+    out.append(Leg('stop-cont', [[n] for n in sorted(STOP_PROGRAMS)], work_stopcont, exhaustive=True,
+                   bound='%d programs that STOP (in a THEN clause inside a loop, as a statement, inside an error handler) and are '
+                         'continued with CONT: suspended at every statement boundary before and after each Break; after the resume CONT is '
+                         'typed at every Break; files and variables equal those of the uninterrupted run' % len(STOP_PROGRAMS)))
     shards = []
     for which in range(3):
         n = _state_len(which) + 64
@@ -414,6 +547,18 @@ def legs(ctx):
 
 
 def replay(ctx, leg, case):
+    if leg == 'stop-cont':
+        part = Partial()
+        lines = STOP_PROGRAMS[case['stop_program']]
+        with H.Scratch() as base:
+            ref, polls = _stop_reference(lines, base)
+            st, problem = _stop_crash(lines, base, case['phase'], case['boundary'])
+            if problem:
+                part.violation('resume-stop/%s' % problem[0], problem[1], case)
+            elif any(st[f] != ref[f] for f in ('vars', 'files')) or st['ended'] != 'exit':
+                part.violation('resume-stop/diverges/%s' % case['stop_program'], 'files %r expected %r; variables %r expected %r' % (
+                    st['files'], ref['files'], st['vars'], ref['vars']), case)
+        return part
     if leg == 'blocked-input':
         return work_blocked([case['blocked']])
     if leg == 'boundaries':
